@@ -839,3 +839,46 @@ Section MinMax.
     - unfold fsum, window_terms. split; apply fold_add_mono; auto; apply zeros.
   Qed.
 End MinMax.
+
+(* ---------- the counts checker is the counts property ---------- *)
+
+From LMPwm Require Import PwmCheck.
+
+Lemma list_same_eq {A} (eqb : A -> A -> bool) (Heq : forall a b, eqb a b = true <-> a = b) :
+  forall l1 l2, list_same eqb l1 l2 = true <-> l1 = l2.
+Proof.
+  induction l1 as [|a l1 IH]; intros [|b l2]; simpl; split; intros H; try discriminate; auto.
+  - apply andb_true_iff in H. destruct H as [H1 H2]. apply Heq in H1. apply IH in H2. congruence.
+  - inversion H; subst. apply andb_true_iff. split; [apply Heq; reflexivity | apply IH; reflexivity].
+Qed.
+
+Lemma cm_same_eq m1 m2 : cm_same m1 m2 = true <-> m1 = m2.
+Proof. apply list_same_eq. intros a b. apply list_same_eq. intros x y. apply N.eqb_eq. Qed.
+
+Lemma check_counts_sound K seqs obs :
+  check_counts K seqs obs = true ->
+  let L := match seqs with [] => 0 | s :: _ => length s end in
+  if all_len L seqs
+  then obs = Ok (counts_spec_matrix K L seqs, N.of_nat (length seqs))
+  else exists c, obs = Err c.
+Proof.
+  intros H. cbv zeta. unfold check_counts in H.
+  set (L := match seqs with [] => 0 | s :: _ => length s end) in *.
+  destruct (all_len L seqs).
+  - destruct obs as [[m n]| | |]; try discriminate.
+    apply andb_true_iff in H. destruct H as [H1 H2].
+    apply cm_same_eq in H1. apply N.eqb_eq in H2. subst. reflexivity.
+  - destruct obs; try discriminate. eexists; reflexivity.
+Qed.
+
+Lemma model_passes_check_counts K seqs :
+  Forall (seq_wf K) seqs -> check_counts K seqs (from_sequences K seqs) = true.
+Proof.
+  intros Hw. pose proof (from_sequences_spec K seqs Hw) as H. simpl in H.
+  unfold check_counts, all_len.
+  destruct (forallb _ seqs).
+  - destruct H as [d [Hrun [Hwf Hc]]]. rewrite Hrun.
+    rewrite (cwf_cells_eq K _ d Hwf seqs Hc).
+    apply andb_true_iff. split; [apply cm_same_eq; reflexivity | apply N.eqb_refl].
+  - rewrite H. reflexivity.
+Qed.
